@@ -108,6 +108,25 @@ def many(rng, nsec, nkeys, groupless, prefix=b"s"):
     return b"\n".join(lines) + b"\n"
 
 
+# the implementation harness runs with the usual 8 MiB stack whatever the limit of the calling shell is
+STACK_KB = 8192
+
+
+def big_value_scenario(sid, n):
+    """one value of n bytes (more than the stack has): read, every typed getter on it, written, read back"""
+    from vlib.scn import run_token
+    s = Scenario(sid, {"a": b"", "b": None, "delim": b"=", "comment": b"#", "opt": None, "stream": "bigvalue", "impl_only": True, "big": n})
+    s.add("F", h(b"/big.conf"), h(b"k=") + "+" + run_token(n, 0x76) + "+" + h(b"\nflag=yes\n"))
+    s.add("RF", 0, h(b"/big.conf"), h(b"="), h(b"#"))
+    for ty in ("bool", "int", "uint", "int64", "uint64", "float", "double", "sum"):
+        s.add("GET", 0, ty, "-", h(b"k"))
+    s.add("GET", 0, "bool", "-", h(b"flag"))
+    s.mkdir(b"/out")
+    s.add("WSUM", 0, h(b"/out"), h(b"w.conf"))
+    s.add("FREE", 0)
+    return s
+
+
 def scenarios(tier, rng):
     out = []
     n = 0
@@ -168,6 +187,8 @@ def scenarios(tier, rng):
                 for nl in (b"", b"\n"):
                     d, c, o = rng.choice(cfgs)
                     out.append(scenario("b%d_%d_%d_%d" % (bi, si, delta + 2, len(nl)), content + nl, b"k=1\n", d, c, o, "blockfill"))
+    # (the stack of the process is 8 MiB: a value larger than that)
+    out.append(big_value_scenario("bigvalue", 12 << 20))
     return out
 
 
@@ -180,6 +201,14 @@ def oracle(s, lines):
     # the sanitizer fills every fresh block with the byte 0xbe (ASAN_OPTIONS malloc_fill_byte): a key, value or comment that
     # contains this byte although no file of the scenario does has been read from memory nobody had written to
     m = s.meta
+    if m.get("big"):
+        gets = [l for l in lines if l.startswith("get ")]
+        # a value of that many 'v' is no number and no truth value; the text comes back whole
+        want = ["get E8"] + ["get E24"] * 6 + ["get E0 len=%d" % m["big"], "get E0 1"]
+        got = [g if not g.startswith("get E0 len=") else g.split(" fnv=")[0] for g in gets]
+        if got != want:
+            return "value of %d bytes: the getters answer %r, expected %r" % (m["big"], got, want)
+        return None
     if "a" in m and not any(isinstance(m.get(x), bytes) and b"\xbe" in m[x] for x in ("a", "b")):
         for l in lines:
             if l.startswith("e "):
